@@ -40,6 +40,8 @@ func TestMain(m *testing.M) {
 
 type crashSentinel struct{}
 
+const inconclusiveInitialSync = "inconclusive: the initial background sync of the periodic store could not be awaited"
+
 type faultKind int
 
 const (
@@ -244,7 +246,9 @@ func run(h history, period time.Duration, crashAt int, own, foreign []string, tr
 	m.ack(own[0]+".old", 1000)
 	store := k8s.NewK8sCacheStore(sim.client, period, h.Shard, h.N)
 	if period > 0 {
-		waitInitialSync()
+		if !waitInitialSync() {
+			return m, sim, false, inconclusiveInitialSync
+		}
 	}
 	if err := store.Load(); err != nil {
 		return m, sim, false, "Load on a healthy API failed: " + err.Error()
@@ -380,9 +384,11 @@ func run(h history, period time.Duration, crashAt int, own, foreign []string, tr
 	return m, sim, crashed, bad
 }
 
-func waitInitialSync() {
-	buf := make([]byte, 1<<16)
-	for i := 0; i < 2000; i++ {
+// waitInitialSync waits until the background goroutine of a periodic store has finished its first (immediate) sync and
+// is parked on its 1 h timer; false = could not be established (the case is then discarded as inconclusive).
+func waitInitialSync() bool {
+	buf := make([]byte, 1<<20)
+	for i := 0; i < 100000; i++ {
 		n := runtime.Stack(buf, true)
 		ok := true
 		for _, g := range strings.Split(string(buf[:n]), "\n\n") {
@@ -393,10 +399,11 @@ func waitInitialSync() {
 			}
 		}
 		if ok {
-			return
+			return true
 		}
 		time.Sleep(50 * time.Microsecond)
 	}
+	return false
 }
 
 // takeover builds a new holder of the shard on the surviving API state and checks what it loads.
@@ -526,7 +533,11 @@ func TestPropWriteThroughCrashes(t *testing.T) {
 				t.Fatalf("%s\nhistory: %v faults %v crash after call %d\ntrace: %v\napi calls: %v", bad, h.Ops, h.Faults, k, tr, sim.log)
 			}
 			if !crashed {
-				t.Fatalf("harness: crash point %d of %d was not reached (calls %v vs %v)", k, total, sim.log, callsLog)
+				// Flush / Stop / DeleteUpstream walk a sync.Map, so the order of their API calls (and with it which call an
+				// injected fault hits) can differ between two executions of one history; then a crash index of the first
+				// execution may not exist in this one. That is a property of the harness' enumeration, not a verdict.
+				sub.Class("crash-point-not-reached-in-this-execution")
+				continue
 			}
 			if msg := takeover(h, m, sim, own, foreign); msg != "" {
 				t.Fatalf("%s\nhistory: %v faults %v crash after API call %d\ntrace before the crash: %v\napi calls: %v", msg, h.Ops, h.Faults, k, tr, sim.log)
@@ -556,6 +567,10 @@ func TestPropPeriodicGracefulStop(t *testing.T) {
 		var trace []string
 		m, sim, _, bad := run(h, time.Hour, 0, own, foreign, &trace)
 		sub.Eval()
+		if bad == inconclusiveInitialSync {
+			sub.Inconclusive()
+			t.Skip(bad)
+		}
 		if bad != "" {
 			t.Fatalf("%s\nhistory: %v faults %v\ntrace: %v\napi calls: %v", bad, h.Ops, h.Faults, trace, sim.log)
 		}
